@@ -84,6 +84,12 @@ def gen_leaf(rng, mode, style, const=None, allow_inf=False):
         elif style == 4:
             undefined[:, :] = True
         arr[undefined] = np.nan
+        if mode == "F16x3" and rng.randint(0, 3) == 0:
+            # a bad sample in one band only: toasty treats a three-plane pixel as undefined as soon as one of its
+            # channels is NaN (Image.update_into_maskable_buffer, is_completely_masked), so it must not contribute
+            for _ in range(200):
+                yy, xx = rng.randint(0, 256, 2)
+                arr[yy, xx, rng.randint(0, 3)] = np.nan
         # saturated / overflowed samples: infinities are defined values (only NaN means undefined)
         ninf = (0, 0, 0, 3, 40)[rng.randint(0, 5)] if allow_inf else 0
         for _ in range(ninf):
